@@ -4,7 +4,7 @@ import verif as V
 PROP = "C12"
 SPEC = "Bng.Spec.C12"
 COMPS = [
-    V.Component("dist", monitors=["store-agree", "restart", "remote", "unique", "roundtrip"]),
+    V.Component("dist", monitors=["store-agree", "restart", "remote", "unique", "reverse", "roundtrip"]),
 ]
 LEVEL = ("Session mode (bitmap allocator): store/memory agreement under every store-failure vector, restart from the store "
          "for every enumeration order (prefixes preserved, uniqueness), and application of remote puts are theorems over "
